@@ -40,7 +40,7 @@ RULE = ("random xarray Datasets: 1-4 parameter dimensions (int / float / str coo
         "distinct = distinct (dataset, query) pairs; non-trivial = the dataset has at least 2 locations and both "
         "a missing and a non-missing location under some criterion")
 
-DIM_NAMES = ["q", "b", "z", "a", "m"]          # deliberately unsorted
+DIM_NAMES = ["q", "b", "z", "a", "m", "tolerance", "drop", "method"]   # deliberately unsorted; the last three are also keyword options of Dataset.sel
 INT_NAMES = ["t", "k"]
 VAR_NAMES = ["y", "x", "w"]
 NAN_OBJ = M.NAN_OBJ                            # token of a float NaN object inside an object (str) variable
